@@ -63,9 +63,8 @@ inductive Op | join | tryjoin | detach
 inductive Pc
   | idle
   | called (op : Op) (g : Nat)
-  | jLoaded (g : Nat)                    -- join: first load ≠ DETACHED
   | tLoaded1 (g : Nat)                   -- tryjoin: first load ≠ DETACHED
-  | tLoaded2 (g : Nat)                   -- tryjoin: second load = WAIT_FOR_JOINER
+  | loaded (op : Op) (g : Nat)           -- join: load ≠ DETACHED / tryjoin: second load = WAIT_FOR_JOINER
   | jPark0 (g : Nat)                     -- join: exchange found NONE
   | jParking (g : Nat)                   -- own state := WAITING written; deferred store pending
   | jParked (g : Nat)                    -- the successor stored us into g's mailbox
@@ -114,7 +113,7 @@ structure St where
   /-- ghost: a detach exchanged g's detach_state (g is detached from then on) -/
   detX : Nat → Bool
   /-- ghost: a join/tryjoin claimed the finished fiber g (its exchange found WAIT_FOR_JOINER)
-      or the finishing fiber claimed its parked joiner -/
+      or the finishing fiber took its parked joiner out of the mailbox -/
   claimed : Nat → Bool
   destroyed : Nat → Bool
   /-- ghost: the finishing fiber's exchange found WAIT_TO_JOIN -/
@@ -122,25 +121,27 @@ structure St where
   tDetach : Nat → Bool
   tThird : Nat → Bool
   tOver : Nat → Bool
-  /-- ghost: number of events that touched g (its cells, or ran as g) after its destruction -/
+  /-- ghost: number of post-exchange accesses to a cell of g after its destruction -/
   late : Nat → Nat
+  /-- ghost: `holder p = some a`: a took p out of a mailbox and has not woken it yet -/
+  holder : Nat → Option Nat
+  /-- ghost: the fiber whose exchange of g's detach_state found NONE -/
+  first : Nat → Option Nat
+  /-- ghost: the client whose exchange found WAIT_FOR_JOINER (it takes the finished fiber) -/
+  taker : Nat → Option Nat
 
 def init (isTarget : Nat → Bool) : St :=
   { det := fun f => if isTarget f then NONE else DET, ji := fun _ => 0, res := fun _ => 0,
     pc := fun _ => .idle, retval := fun _ => none, succ := fun _ => [], detRet := fun _ => false,
     detX := fun f => !isTarget f, claimed := fun _ => false, destroyed := fun _ => false,
     finTook := fun _ => false, tDetach := fun _ => false, tThird := fun _ => false,
-    tOver := fun _ => false, late := fun _ => 0 }
+    tOver := fun _ => false, late := fun _ => 0, holder := fun _ => none, first := fun _ => none,
+    taker := fun _ => none }
 
 def untainted (s : St) (g : Nat) : Prop :=
   s.tDetach g = false ∧ s.tThird g = false ∧ s.tOver g = false
 
 instance (s : St) (g : Nat) : Decidable (untainted s g) := by unfold untainted; infer_instance
-
-/-- bookkeeping: an access by `a` to a cell of `g` after either was destroyed -/
-def noteLate (s : St) (a g : Nat) : St :=
-  let s := if s.destroyed g then { s with late := upd s.late g (s.late g + 1) } else s
-  if a ≠ g ∧ s.destroyed a then { s with late := upd s.late a (s.late a + 1) } else s
 
 /-- Accesses that count as "touching the fiber after its destruction": everything a protocol
     participant does after its exchange of `detach_state`.  The loads / the exchange of a client
@@ -151,41 +152,52 @@ def Ev.counted : Ev → Bool
   | .stRes .. | .ldRes .. | .xchgJi .. | .wJi .. | .wState .. => true
   | _ => false
 
+/-- the fiber whose cell the event accesses -/
+def Ev.cellOf : Ev → Nat
+  | .call a _ _ => a | .ret a _ _ _ _ => a | .fnRet f _ => f
+  | .ldDet _ g _ => g | .xchgDet _ g _ _ => g | .stRes _ g _ => g
+  | .ldRes _ g _ => g | .xchgJi _ g _ => g | .wJi _ g _ => g
+  | .wState _ g _ => g | .destroy a _ => a | .touch _ g => g
+
+/-- the fiber acting -/
+def Ev.actor : Ev → Nat
+  | .call a _ _ => a | .ret a _ _ _ _ => a | .fnRet f _ => f
+  | .ldDet a _ _ => a | .xchgDet a _ _ _ => a | .stRes a _ _ => a
+  | .ldRes a _ _ => a | .xchgJi a _ _ => a | .wJi a _ _ => a
+  | .wState a _ _ => a | .destroy a _ => a | .touch a _ => a
+
+def Ev.who (e : Ev) : Nat × Nat := (e.actor, e.cellOf)
+
 def stepCore (s : St) : Ev → Option St
   | .call a op g => if s.pc a = .idle then some { s with pc := upd s.pc a (.called op g) } else none
   | .ret a op g ok v =>
-    match s.pc a with
-    | .retn op' g' ok' v' =>
-      if op = op' ∧ g = g' ∧ ok = ok' ∧ v = v' then
-        let s := { s with pc := upd s.pc a .idle }
-        match op, ok with
-        | .detach, true => some { s with detRet := upd s.detRet g true }
-        | .detach, false => some s
-        | _, true => some { s with succ := upd s.succ g (v :: s.succ g) }
-        | _, false => some s
-      else none
-    | _ => none
+    if s.pc a = .retn op g ok v then
+      if op = .detach then
+        some { s with pc := upd s.pc a .idle, detRet := if ok then upd s.detRet g true else s.detRet }
+      else
+        some { s with pc := upd s.pc a .idle, succ := if ok then upd s.succ g (v :: s.succ g) else s.succ }
+    else none
   | .fnRet f v =>
     if s.pc f = .idle ∧ s.retval f = none then
       some { s with pc := upd s.pc f (.fRet v), retval := upd s.retval f (some v) }
     else none
   | .ldDet a g v =>
     if v ≠ s.det g then none else
-    -- a client that reads WAIT_FOR_JOINER although the finishing fiber is a taker is already inside window `tThird`
-    let s := if v = WFJ ∧ s.finTook g = true ∧ a ≠ g then { s with tThird := upd s.tThird g true } else s
     match s.pc a with
-    | .called .join g' =>
-      if g ≠ g' then none
-      else if v = DET then some { s with pc := upd s.pc a (.retn .join g false 0) }
-      else some { s with pc := upd s.pc a (.jLoaded g) }
-    | .called .tryjoin g' =>
-      if g ≠ g' then none
-      else if v = DET then some { s with pc := upd s.pc a (.retn .tryjoin g false 0) }
-      else some { s with pc := upd s.pc a (.tLoaded1 g) }
+    | .called op g' =>
+      if g ≠ g' ∨ op = .detach then none
+      else
+        -- a client that reads WAIT_FOR_JOINER although the finishing fiber is a taker is inside window `tThird`
+        let s := if v = WFJ ∧ s.finTook g = true then { s with tThird := upd s.tThird g true } else s
+        if v = DET then some { s with pc := upd s.pc a (.retn op g false 0) }
+        else if op = .join then some { s with pc := upd s.pc a (.loaded .join g) }
+        else some { s with pc := upd s.pc a (.tLoaded1 g) }
     | .tLoaded1 g' =>
       if g ≠ g' then none
-      else if v = WFJ then some { s with pc := upd s.pc a (.tLoaded2 g) }
-      else some { s with pc := upd s.pc a (.retn .tryjoin g false 0) }
+      else
+        let s := if v = WFJ ∧ s.finTook g = true then { s with tThird := upd s.tThird g true } else s
+        if v = WFJ then some { s with pc := upd s.pc a (.loaded .tryjoin g) }
+        else some { s with pc := upd s.pc a (.retn .tryjoin g false 0) }
     | .fStored =>
       if g ≠ a then none
       else if v = DET then some { s with pc := upd s.pc a .fMark }
@@ -193,41 +205,39 @@ def stepCore (s : St) : Ev → Option St
     | _ => none
   | .xchgDet a g old new =>
     if old ≠ s.det g then none else
-    let s1 := { s with det := upd s.det g new }
     match s.pc a with
-    | .jLoaded g' =>
-      if g ≠ g' ∨ new ≠ WTJ then none
-      else if old = NONE then some { s1 with pc := upd s.pc a (.jPark0 g) }
+    | .loaded op g' =>
+      if g ≠ g' ∨ new ≠ WTJ ∨ op = .detach then none
+      else if old = NONE ∧ op = .join then
+        some { s with det := upd s.det g new, pc := upd s.pc a (.jPark0 g), first := upd s.first g (some a) }
       else if old = WFJ then
-        some { s1 with pc := upd s.pc a (.take0 .join g), claimed := upd s.claimed g true,
-                       tThird := if s.finTook g then upd s.tThird g true else s.tThird }
+        some { s with det := upd s.det g new, pc := upd s.pc a (.take0 op g), claimed := upd s.claimed g true,
+                      taker := upd s.taker g (some a),
+                      tThird := if s.finTook g then upd s.tThird g true else s.tThird }
       else if old = DET then
-        some { s1 with pc := upd s.pc a (.retn .join g false 0), tOver := upd s.tOver g true }
-      else some { s1 with pc := upd s.pc a (.retn .join g false 0) }
-    | .tLoaded2 g' =>
-      if g ≠ g' ∨ new ≠ WTJ then none
-      else if old = WFJ then
-        some { s1 with pc := upd s.pc a (.take0 .tryjoin g), claimed := upd s.claimed g true,
-                       tThird := if s.finTook g then upd s.tThird g true else s.tThird }
-      else if old = DET then
-        some { s1 with pc := upd s.pc a (.retn .tryjoin g false 0), tOver := upd s.tOver g true }
-      else some { s1 with pc := upd s.pc a (.retn .tryjoin g false 0) }
+        some { s with det := upd s.det g new, pc := upd s.pc a (.retn op g false 0), tOver := upd s.tOver g true }
+      else some { s with det := upd s.det g new, pc := upd s.pc a (.retn op g false 0) }
     | .called .detach g' =>
       if g ≠ g' ∨ new ≠ DET then none
       else if old = WFJ then
-        some { s1 with pc := upd s.pc a (.take .detach g 0), detX := upd s.detX g true,
-                       tThird := if s.finTook g then upd s.tThird g true else s.tThird }
+        some { s with det := upd s.det g new, pc := upd s.pc a (.take .detach g 0), detX := upd s.detX g true,
+                      taker := upd s.taker g (some a),
+                      tThird := if s.finTook g then upd s.tThird g true else s.tThird }
       else if old = WTJ then
-        some { s1 with pc := upd s.pc a (.take .detach g 0), detX := upd s.detX g true,
-                       tDetach := upd s.tDetach g true }
-      else if old = DET then some { s1 with pc := upd s.pc a (.retn .detach g false 0) }
-      else some { s1 with pc := upd s.pc a (.retn .detach g true 0), detX := upd s.detX g true }
+        some { s with det := upd s.det g new, pc := upd s.pc a (.take .detach g 0), detX := upd s.detX g true,
+                      tDetach := upd s.tDetach g true }
+      else if old = DET then some { s with det := upd s.det g new, pc := upd s.pc a (.retn .detach g false 0) }
+      else some { s with det := upd s.det g new, pc := upd s.pc a (.retn .detach g true 0), detX := upd s.detX g true,
+                         first := upd s.first g (some a) }
     | .fLoaded =>
       if g ≠ a ∨ new ≠ WFJ then none
-      else if old = NONE then some { s1 with pc := upd s.pc a .fPark0 }
-      else if old = WTJ then some { s1 with pc := upd s.pc a .fTake, finTook := upd s.finTook a true }
-      else if old = DET then some { s1 with pc := upd s.pc a .fMark, tOver := upd s.tOver a true }
-      else some { s1 with pc := upd s.pc a .fMark }
+      else if old = NONE then
+        some { s with det := upd s.det g new, pc := upd s.pc a .fPark0, first := upd s.first g (some a) }
+      else if old = WTJ then
+        some { s with det := upd s.det g new, pc := upd s.pc a .fTake, finTook := upd s.finTook a true }
+      else if old = DET then
+        some { s with det := upd s.det g new, pc := upd s.pc a .fMark, tOver := upd s.tOver a true }
+      else some { s with det := upd s.det g new, pc := upd s.pc a .fMark }
     | _ => none
   | .wState a g v =>
     match s.pc a with
@@ -236,14 +246,17 @@ def stepCore (s : St) : Ev → Option St
     | .wake op t val p =>
       if g = p ∧ v = READY ∧ p ≠ a then
         match s.pc p with
-        | .jParked t' => some { s with pc := upd (upd s.pc p (.jWoken t')) a (.retn op t true val) }
-        | .fParked => some { s with pc := upd (upd s.pc p .fWoken) a (.retn op t true val) }
+        | .jParked t' => some { s with pc := upd (upd s.pc p (.jWoken t')) a (.retn op t true val),
+                                       holder := upd s.holder p none }
+        | .fParked => some { s with pc := upd (upd s.pc p .fWoken) a (.retn op t true val),
+                                    holder := upd s.holder p none }
         | _ => none
       else none
     | .fGave p =>
       if g = p ∧ v = READY ∧ p ≠ a then
         match s.pc p with
-        | .jParked t' => some { s with pc := upd (upd s.pc p (.jWoken t')) a .fMark }
+        | .jParked t' => some { s with pc := upd (upd s.pc p (.jWoken t')) a .fMark,
+                                       holder := upd s.holder p none }
         | _ => none
       else none
     | .fMark => if g = a ∧ v = DONE then some { s with pc := upd s.pc a .fDone } else none
@@ -257,16 +270,16 @@ def stepCore (s : St) : Ev → Option St
     | _ => none
   | .xchgJi a g old =>
     if old ≠ s.ji g then none else
-    let s1 := { s with ji := upd s.ji g 0 }
     match s.pc a with
     | .take op t v =>
       if g ≠ t then none
-      else if old = 0 then some s1
-      else some { s1 with pc := upd s.pc a (.wake op t v old) }
+      else if old = 0 then some s
+      else some { s with ji := upd s.ji g 0, pc := upd s.pc a (.wake op t v old), holder := upd s.holder old (some a) }
     | .fTake =>
       if g ≠ a then none
-      else if old = 0 then some s1
-      else some { s1 with pc := upd s.pc a (.fGot old), claimed := upd s.claimed a true }
+      else if old = 0 then some s
+      else some { s with ji := upd s.ji g 0, pc := upd s.pc a (.fGot old), claimed := upd s.claimed a true,
+                         holder := upd s.holder old (some a) }
     | _ => none
   | .ldRes a g v =>
     if v ≠ s.res g then none else
@@ -286,15 +299,9 @@ def stepCore (s : St) : Ev → Option St
     else none
   | .touch _ _ => some s
 
-/-- the fiber acting and the fiber whose cell is accessed -/
-def Ev.who : Ev → Nat × Nat
-  | .call a _ _ => (a, a) | .ret a _ _ _ _ => (a, a) | .fnRet f _ => (f, f)
-  | .ldDet a g _ => (a, g) | .xchgDet a g _ _ => (a, g) | .stRes a g _ => (a, g)
-  | .ldRes a g _ => (a, g) | .xchgJi a g _ => (a, g) | .wJi a g _ => (a, g)
-  | .wState a g _ => (a, g) | .destroy a _ => (a, a) | .touch a g => (a, g)
-
 def step (s : St) (e : Ev) : Option St :=
-  (stepCore s e).map (fun s' => if e.counted then noteLate s' e.who.1 e.who.2 else s')
+  (stepCore s e).map (fun s' =>
+    { s' with late := if e.counted ∧ s'.destroyed e.cellOf then upd s'.late e.cellOf (s'.late e.cellOf + 1) else s'.late })
 
 def sys (isTarget : Nat → Bool) : Sys St Ev := { init := init isTarget, step := step }
 
